@@ -15,7 +15,8 @@
 // Each route is run twice in the same child, on two runtimes that were built before the fork: the second
 // result is only printed when it differs (NONDET).  The whole case runs in one forked child first; when
 // that child does not come back with a line (CRASH <sig> | TIMEOUT | OOM | EXCEPTION | EXIT), every route
-// is run again in a child of its own so that the failure is attributed:  <route>=CRASH:<sig> etc.
+// is run again in a child of its own so that the failure is attributed:  <route>=CRASH:<sig> etc.  (for the first 25
+// such cases of a harness process; after that the case as a whole is reported:  ANY=TIMEOUT etc.)
 //
 // routes
 //   TOK     sqf::parser::sqf::tokenizer::next() until eof / invalid        listing  type,offset,length;
@@ -262,7 +263,13 @@ int main(int argc, char** argv)
         }, per_route, VH_MEM_MB, kStackMb);
         bool lost = res.rfind("CRASH", 0) == 0 || res.rfind("TIMEOUT", 0) == 0 || res.rfind("OOM", 0) == 0 ||
                     res.rfind("EXCEPTION", 0) == 0 || res.rfind("EXIT", 0) == 0 || res.rfind("HARNESS", 0) == 0 || res.empty();
-        if (lost && routes.size() > 1)
+        static int lost_cases = 0;
+        if (lost && routes.size() > 1 && ++lost_cases > 25)
+        {   // a badly broken tree: after 25 attributed failures of this process the failure is reported for the case as a whole
+            for (auto& c : res) if (c == '\t') c = ':';
+            res = "ANY=" + (res.empty() ? std::string("LOST") : res);
+        }
+        else if (lost && routes.size() > 1)
         {
             std::string out;
             for (auto& r : routes)
